@@ -280,9 +280,10 @@ Definition spec_in_range (r : raw) : bool :=
    4 for a binary-file bit number) *)
 Definition longer (n : nat) (o : option text) : bool :=
   match o with Some d => (n <? length d)%nat | None => false end.
-Definition overlong (r : raw) : bool :=
-  longer 3 (r_file r) || (negb (r_flat r) && (3 <? length (r_elem r))%nat) || longer 3 (r_sub r)
+Definition overlong_field (r : raw) : bool :=          (* ... in an element, word or bit number *)
+  (negb (r_flat r) && (3 <? length (r_elem r))%nat) || longer 3 (r_sub r)
   || longer (if r_flat r then 4 else 2) (r_bit r).
+Definition overlong (r : raw) : bool := longer 3 (r_file r) || overlong_field r.
 
 (* the digit runs stay within what the grammar allows: 3 digits for file / element / word,
    2 for a bit, 4 for a binary-file bit number *)
